@@ -32,7 +32,7 @@ func sortedKeys(m map[string]bool) []string {
 	return out
 }
 
-func writeEvidence(prop, tier string, seed int64, reports []*harnessReport, solvers []string, load, wall time.Duration, known []knownFinding) {
+func writeEvidence(prop, tier string, seed int64, reports []*harnessReport, solvers []string, load, wall time.Duration, known []knownFinding, scan *scanResult) {
 	var states, transitions, traces, obligations, discharged, violations int
 	var samples []any
 	funcs := map[string]bool{}
@@ -142,6 +142,15 @@ func writeEvidence(prop, tier string, seed int64, reports []*harnessReport, solv
 		"harnesses":          perHarness,
 		"exhaustive":         false,
 		"explanation":        "bounded symbolic execution of the real SSA of /repo; states = feasible symbolic paths completed, transitions = SSA instructions interpreted, obligations = assertion instances reached, discharged = proved unsat (or folded to true) within the bounds",
+	}
+	if scan != nil {
+		cov["map_range_sites"] = scan.Sites
+		cov["map_range_sites_uncovered"] = scan.Uncovered
+		cov["map_range_table_stale_entries"] = scan.Stale
+		for _, u := range scan.Uncovered {
+			inconcl = append(inconcl, "uncovered map range in "+u)
+		}
+		cov["inconclusive"] = inconcl
 	}
 	ev := map[string]any{
 		"property_id": prop, "tier": tier, "seed": seed, "level": "model_checking",
